@@ -25,12 +25,12 @@ def obligations(tier):
                               timeout=T, group='permutations', bound=bound))
             else:
                 for l2 in range(4):
-                    params = 'b2: int, l0: int, l1: int, ann: int, with_prop: bool, perm: int, flip: bool, split: bool'
-                    args = f'{b0}, {b1}, b2, l0, l1, {l2}, ann, with_prop, perm, flip, split'
-                    pre = ['0 <= b2 <= 3 and 0 <= l0 <= 3 and 0 <= l1 <= 3', '0 <= ann <= 3', '0 <= perm <= 23']
+                    params = 'b2: int, l0: int, l1: int, ann: int, perm: int, flip: bool, split: bool'
+                    args = f'{b0}, {b1}, b2, l0, l1, {l2}, ann, True, perm, flip, split'
+                    pre = ['0 <= b2 <= 3 and 0 <= l0 <= 3 and 0 <= l1 <= 3', 'ann == 1 or ann == 3', '0 <= perm <= 23']
                     obs.append(Ob(id=f'sdl.b0_{b0}.b1_{b1}.l2_{l2}', module=M, func='order_independent', params=params, args=args,
                                   pre=pre, timeout=T, group='permutations',
-                                  bound='as quick, plus a link from C (#%d), annotation on any type, with / without properties' % l2))
+                                  bound='as quick, plus links from B and from C (#%d), annotation on B or none, with properties' % l2))
     # one shared multi link `l`, overloaded where an ancestor declares it too (24576 documents x orders)
     for b0 in range(4):
         obs.append(Ob(id=f'sdl.shared-link.b0_{b0}', module=M, func='order_independent_shared',
